@@ -123,6 +123,11 @@ def tasks_a(tier):
     for nm in hm.RIEMANN_TABLE:
         for mirror in (False, True):
             out.append({"route": "a", "table": nm, "mirror": mirror})
+    # states straddling the wave-pattern classification boundaries (p* = pl, p* = pr), where the two solvers pick the branch
+    # independently; unequal-gamma ones in the quick tier, all of them in the thorough tier
+    for nm in hm.BND_TABLE:
+        if tier != "quick" or ("|ul0|" in nm + "|" and "gl1.4|gr1.4" not in nm):
+            out.append({"route": "a", "table": nm, "mirror": False})
     for root in ROOTS:
         al = root_alphabet(root)
         for dev in lattice.enumerate_checked(al, k):
